@@ -84,6 +84,11 @@ func (vm *VM) AllocateModule(name string, program *syntax.Program) *Module {
 	return vm.moduleGraph.GetModuleByID(extModuleID)
 }
 
+// AddModuleDependency - record that current module imports an already allocated module
+func (vm *VM) AddModuleDependency(depModule *Module) {
+	vm.moduleGraph.AddDependency(vm.csModuleID, depModule.GetName(), depModule.GetID())
+}
+
 func (vm *VM) FindModuleByName(name string) *Module {
 	moduleID, exists := vm.moduleGraph.GetIDFromName(name)
 	if !exists {
